@@ -234,6 +234,9 @@ def run_sbrg(shard, rec, B):
         if not commuting and t % 3 == 0:
             # coefficients spread over many decades: second-order terms fall below the tolerance
             cs = (cs * 10.0 ** -rng.integers(0, 8, len(cs))).astype(complex)
+        if t % 4 == 1 or t % 8 == 2:
+            # round coefficients (unit couplings are what model Hamiltonians are written with); ties in magnitude included
+            cs = rng.choice(np.array([1.0, -1.0, 1.0, -1.0, 0.5, -0.5, 2.0, -2.0, 1.5]), size=len(cs)).astype(complex)
         if t % 6 == 0 and commuting and len(cs) > 1:
             # make an identity / early term the leading one
             cs[-1] = 3.0 * np.sign(cs[-1].real or 1.0)
